@@ -48,6 +48,12 @@ def parse_xml(content: str, transport, base_url=None, settings=None):
     parser.resolvers.add(ImportResolver(transport))
     try:
         elementtree = fromstring(content, parser=parser, base_url=base_url)
+        if elementtree is None:
+            # The recovering parser returns nothing when there is no root element
+            raise XMLSyntaxError(
+                "Invalid XML content received (no root element found)",
+                content=content,
+            )
         docinfo = elementtree.getroottree().docinfo
         if docinfo.doctype:
             if settings.forbid_dtd:
